@@ -3,6 +3,7 @@ package checks
 import (
 	"fmt"
 	"math"
+	"strconv"
 	"strings"
 
 	"pgregory.net/rapid"
@@ -423,6 +424,30 @@ func genAtom(t *rapid.T, tb *Table, ps *PredSpec, label string) *sq.E {
 		list := make([]*sq.E, n)
 		for i := range list {
 			list[i] = constFor(t, c, fmt.Sprintf("%s.in%d", label, i))
+		}
+		if rapid.IntRange(0, 7).Draw(t, label+".long") == 0 {
+			// a long list (30-120 members): a few members as above at drawn places, the rest a run of numbers
+			// (negative ones, zero and fractions among them, not in ascending order) / strings computed from a start,
+			// a multiplier and a step - membership in a long list is membership all the same
+			m := rapid.IntRange(30, 120).Draw(t, label+".longn")
+			start := rapid.IntRange(-60, 3).Draw(t, label+".start")
+			mul := rapid.SampledFrom([]int{1, 7, 11, 13, 29, -1}).Draw(t, label+".mul")
+			long := make([]*sq.E, m)
+			for i := range long {
+				k := ((i*mul)%m + m) % m
+				switch c.Kind {
+				case "str":
+					long[i] = sq.Str(rapid.SampledFrom([]string{"w", "", "A", "zed"}).Draw(t, label+".pfx") + strconv.Itoa(start+k))
+				case "num":
+					long[i] = sq.Num(float64(start+k) + []float64{0, 0, 0.25, 0.5, 0}[i%5])
+				default:
+					long[i] = sq.Num(float64(start + k))
+				}
+			}
+			for i, e := range list {
+				long[rapid.IntRange(0, m-1).Draw(t, fmt.Sprintf("%s.at%d", label, i))] = e
+			}
+			list = long
 		}
 		return sq.In(rapid.SampledFrom([]bool{false, true}).Draw(t, label+".not"), colRef(ps, c), list...)
 	case "insub":
